@@ -470,8 +470,8 @@ def main():
     # started while the time budget lasts
     import time
     per = 8 if thorough else 5
-    n_mand = (1520 // per) if thorough else (155 // per)
-    n_extra = (240 // per) if thorough else (40 // per)
+    n_mand = (1000 // per) if thorough else (155 // per)
+    n_extra = (600 // per) if thorough else (40 // per)
     n_jobs = n_mand + n_extra
     jobs = [{"start": j, "stride": n_jobs, "count": per, "tier": c.tier, "file_every": 8 if thorough else 4,
              "materialise_every": 4 if thorough else 2, "all_values": thorough, "small": not thorough} for j in range(n_jobs)]
@@ -484,10 +484,10 @@ def main():
         c.count("surplus_jobs_not_started", n_extra)
     c.exhaustive = True
     c.extra["exhaustive_scope"] = "mutation positions per base document (dictionary API); base documents are sampled"
-    c.floor("base_documents", 1500 if thorough else 150)
+    c.floor("base_documents", 1000 if thorough else 150)
     c.floor("mutant_cases", 100000 if thorough else 2500)
     c.floor("mutant_file_api", 10000 if thorough else 400)
-    c.floor("base_materialised", 300 if thorough else 60)
+    c.floor("base_materialised", 200 if thorough else 60)
     for kind in ("drop-referenced-component", "rename-reference", "back-edge", "self-reference", "duplicate-id",
                  "misspelt-key", "extra-key", "wrong-type", "remove-variable"):
         c.floor("mutant_" + kind, 1000 if thorough else 100)
